@@ -63,6 +63,50 @@ class RecordingController(MachineController):
         return self.next_alloc
 
 
+class StackController(MachineController):
+    """The same window of memory, but on the simulated machine, reached through rig's own read / write, the real
+    SCPConnection and the simulated network (a 4- or 5-byte data buffer, so that an 8-byte view already spans
+    several commands).  read and write only add the log entry."""
+
+    def __init__(self, origin, mem, x, y, bufsize):
+        import pkg_resources
+        from rig.machine_control import scp_connection, machine_controller
+        from ..env.spinnaker_sim import SimMachine
+        from ..env.simnet import SimNet
+        self.sim = SimMachine(4, 4, pkg_resources.resource_string("rig", "boot/sark.struct").decode(),
+                              buffer_size=bufsize, legacy_version=True, name="SCMP")
+        self.net = SimNet(self.sim)
+        self.net.install(scp_connection, machine_controller)
+        MachineController.__init__(self, "sim", initial_context={"app_id": 66})
+        self.origin, self.chip, self.n = origin, (x, y), len(mem)
+        self.sim.chips[(x, y)].write(origin, bytes(mem))
+        self.log = []
+        self.next_alloc = None
+
+    @property
+    def mem(self):
+        return bytearray(self.sim.chips[self.chip].read(self.origin, self.n))
+
+    def read(self, address, length_bytes, x, y, p=0):
+        data = MachineController.read(self, address, length_bytes, x, y, p)
+        self.log.append(["r", address - self.origin, length_bytes, list(bytearray(data)), x, y])
+        return data
+
+    def write(self, address, data, x, y, p=0):
+        data = bytes(data)
+        self.log.append(["w", address - self.origin, len(data), list(bytearray(data)), x, y])
+        MachineController.write(self, address, data, x, y, p)
+
+    def sdram_free(self, ptr, x, y):
+        self.log.append(["f", ptr - self.origin, 0, [], x, y])
+
+    def sdram_alloc(self, size, tag=0, x=None, y=None, app_id=None, clear=False):
+        return self.next_alloc
+
+    def close(self):
+        self.net.uninstall()
+
+
 def opt(f):
     """[value] or [] if the observation raised / is not an integer"""
     try:
@@ -92,8 +136,8 @@ def describe(op):
 class History(object):
     """One root view over a fresh recording controller; perform() runs one operation and records its event."""
 
-    def __init__(self, origin, mem, start, end, x=1, y=2, via="direct"):
-        self.ctrl = RecordingController(origin, mem)
+    def __init__(self, origin, mem, start, end, x=1, y=2, via="direct", stack=0):
+        self.ctrl = StackController(origin, mem, x, y, stack) if stack else RecordingController(origin, mem)
         self.origin = origin
         self.setup = dict(mem=list(bytearray(mem)), start=start, end=end, x=x, y=y, origin=origin, via=via)
         if via == "direct":
@@ -190,6 +234,9 @@ class History(object):
 
     def trace(self, label):
         ev = self.ev + [["end", list(self.ctrl.mem)]]
+        if isinstance(self.ctrl, StackController):
+            self.ctrl.close()
+            label += " (through the real controller, connection and simulated machine)"
         return dict(self.setup, ev=ev, label=label, ops=self.ops)
 
 
@@ -306,7 +353,8 @@ def random_history(rng, clean, nops):
     if via == "direct" and rng.random() < 0.08:
         end = start - rng.randint(0, 5)          # "end_address is ignored": a zero-length view
     x, y = rng.randrange(4), rng.randrange(4)
-    h = History(origin, mem, start, end, x=x, y=y, via=via)
+    stack = rng.choice((4, 4, 5)) if clean and rng.random() < 0.2 else 0
+    h = History(origin, mem, start, end, x=x, y=y, via=via, stack=stack)
     weights = [("seek", 25), ("read", 20), ("write", 20), ("slice", 12), ("tell", 4), ("address", 3), ("len", 3),
                ("flush", 2), ("close", 3), ("free", 1)]
     names = [w[0] for w in weights]
